@@ -1115,7 +1115,10 @@ func (eval Evaluator) mulRelinThenAdd(op0 *rlwe.Ciphertext, op1 *rlwe.Element[ri
 		ratio := resScale.Div(opOut.Scale)
 		// Only scales up if int(ratio) >= 2
 		if ratio.Float64() >= 2.0 {
-			if err = eval.Mul(opOut, &ratio.Value, opOut); err != nil {
+			// Scales by the integer part of the ratio (as for additions): a non-integer constant
+			// would additionally be scaled by the current prime(s), which resScale does not account for.
+			ratioInt, _ := ratio.Value.Int(nil)
+			if err = eval.Mul(opOut, ratioInt, opOut); err != nil {
 				return fmt.Errorf("cannot MulRelinThenAdd: %w", err)
 			}
 			opOut.Scale = resScale
